@@ -40,6 +40,7 @@ def run(ctx):
     infos = vlib.run_impl_sharded('thermo', [{'op': 'libinfo', 'lib': s} for s in libs + syn], timeout=900)
     jobs = []
     uqs = {}
+    byname_of = {}
     for spec, info in zip(libs + syn, infos):
         if 'groups' not in info:
             ctx.broken.append('library %s did not load: %s' % (spec, str(info)[:300]))
@@ -50,6 +51,7 @@ def run(ctx):
         uqs[spec] = uq
         basis = uq['descriptors']
         byname = {g['name']: g for g in info['groups']}
+        byname_of[spec] = byname
         usable = [d for d in basis if d in byname and byname[d]['has']]
         Ts = [298.15, 500.0, round(rng.uniform(300, 1000), 1)]
 
@@ -95,6 +97,8 @@ def run(ctx):
                 ctx.violate(key, 'a descriptor outside the uncertainty basis did not cause an error', job, 'ValueError', r.get('exc', 'estimate returned'))
             rows.setdefault(lib, []).append((1.0, job['mapping'], None))
             continue
+        if r.get('exc') == 'AssertionError' and c01.disjoint_ranges(job, {g['name']: g.get('range') for g in byname_of[lib].values()}):
+            continue        # no common valid range
         if 'exc' in r:
             ctx.violate('se-estimate-raises:' + r['exc'], 'Estimate over basis descriptors raised %s' % r['exc'], job, 'estimate', r)
             continue
